@@ -1268,6 +1268,11 @@ def _expand_dict_kwargs(fn) -> int:
             stores[n.id] = stores.get(n.id, 0) + 1
     count = 0
     for st in [x for x in walk_no_nested(fn) if isinstance(x, (ast.Assign,))]:
+        if len(st.targets) == 1 and isinstance(st.targets[0], ast.Name) and isinstance(st.value, ast.Call) and isinstance(st.value.func, ast.Name) \
+                and st.value.func.id == "dict" and not st.value.args and st.value.keywords and all(k.arg for k in st.value.keywords):
+            # dict(width=width, ...) is the literal {"width": width, ...}
+            st.value = ast.copy_location(ast.Dict(keys=[ast.Constant(value=k.arg) for k in st.value.keywords], values=[k.value for k in st.value.keywords]), st.value)
+            ast.fix_missing_locations(st)
         if not (len(st.targets) == 1 and isinstance(st.targets[0], ast.Name) and isinstance(st.value, ast.Dict)):
             continue
         v = st.targets[0].id
